@@ -55,6 +55,13 @@ def f_stop3(x):
     return ('s', x)
 
 
+def pre_gate3(x):
+    # a parmap `preprocessor` that rejects some elements: the rejection is that element's outcome, like a failure of the function
+    if khash(x) % 3 == 1:
+        raise ValueError('gate', khash(x) % 1000)
+    return ('pre', x)
+
+
 def p_stop4(x):
     if khash(x) % 4 == 0:
         raise StopIteration('p-stop', khash(x) % 1000)
@@ -95,7 +102,7 @@ def materialize(kv):
     return (kv[0], list(kv[1]))
 
 
-FUNCS = {f.__name__: f for f in (f_tag, f_tag_kw, f_fail5, f_ident, f_errval, f_none, f_stop3, p_stop4, p_even, p_mod3_kw, p_fail7, k_mod2, k_mod3_kw, acc, acc_kw)}
+FUNCS = {f.__name__: f for f in (pre_gate3, f_tag, f_tag_kw, f_fail5, f_ident, f_errval, f_none, f_stop3, p_stop4, p_even, p_mod3_kw, p_fail7, k_mod2, k_mod3_kw, acc, acc_kw)}
 
 EXC = {'Boom': Boom, 'Exception': Exception, 'ValueError': ValueError, 'LookupError': LookupError, 'KeyError': KeyError, None: None}
 
@@ -145,7 +152,7 @@ def apply_real(st, op, sink=None):
         return st.buffer(op[1])
     if name == 'parmap':
         return st.parmap(FUNCS[op[1]], executor='thread', concurrency=op[2], return_x=op[3], return_exceptions=op[4],
-                         **(op[5] if len(op) > 5 else {}))
+                         **(op[5] if len(op) > 5 else {}), **({'preprocessor': FUNCS[op[6]]} if len(op) > 6 else {}))
     if name == 'shuffle':
         return st.shuffle(op[1])
     raise ValueError(name)
@@ -242,11 +249,12 @@ def apply_ref(g, op):
         f = FUNCS[op[1]]
         kw = op[5] if len(op) > 5 else {}
         rx, rexc = op[3], op[4]
+        pre = FUNCS[op[6]] if len(op) > 6 else None
 
         def pm(g):
             for x in g:
                 try:
-                    y = f(x, **kw)
+                    y = f(x if pre is None else pre(x), **kw)
                 except Exception as e:  # noqa: BLE001
                     if not rexc:
                         raise
@@ -280,6 +288,7 @@ def alphabet(n):
         ['parmap', 'f_tag_kw', 2, True, True, {'suffix': 'q'}],
         ['parmap', 'f_ident', 2, False, False], ['parmap', 'f_errval', 2, False, False], ['parmap', 'f_errval', 1, True, True], ['map', 'f_errval'], ['map', 'f_none'], ['parmap', 'f_none', 2, False, False],
         ['map', 'f_stop3'], ['filter', 'p_stop4'],
+        ['parmap', 'f_tag', 2, False, True, {}, 'pre_gate3'], ['parmap', 'f_fail5', 2, True, True, {}, 'pre_gate3'], ['parmap', 'f_tag', 1, True, False, {}, 'pre_gate3'],
         ['shuffle', 2],
     ]
     return ops
